@@ -77,6 +77,7 @@ type fnv struct {
 	loopOrd     map[ast.Node]int
 	callOrd     map[string]int
 	callSiteOrd map[*ast.CallExpr]int
+	curLp       *loopCtx              // innermost loop whose body is being executed (for pre(e) in at-clauses)
 	boxedVar    map[types.Object]bool // locals whose address is taken: live in heap cells
 	assumed     map[string]bool       // unchecked assumptions met while generating (callee without contract, ...)
 	frames      []*frame
@@ -173,7 +174,7 @@ func (x *fnv) oblige(s *State, kind, label string, goal *Term, pos token.Pos, cl
 		}
 		return
 	}
-	if x.fc != nil && x.fc.Skip[kind] {
+	if x.fc != nil && (x.fc.Skip[kind] || (strings.HasSuffix(kind, ".frame") && x.fc.Skip["frame"])) {
 		s.Assume(goal)
 		return
 	}
